@@ -83,10 +83,15 @@ impl<'de> RandomAccessDeserializer<'de> for MapDeserializer<'de> {
                 fail!("Out of bounds access")
             }
 
+            let start = self.offsets[idx].try_into_usize()?;
+            let end = self.offsets[idx + 1].try_into_usize()?;
+            if start > end {
+                fail!("Invalid offsets: element {idx} starts at {start} and ends at {end}");
+            }
             visitor.visit_map(MapItemDeserializer {
                 deserializer: self,
-                start: self.offsets[idx].try_into_usize()?,
-                end: self.offsets[idx + 1].try_into_usize()?,
+                start,
+                end,
             })
         })
         .ctx(self)
